@@ -2022,14 +2022,16 @@ fn session(ctx: &Ctx, kernel: &K) -> WorldResult {
     }
 
     // ---- release: drop at this point, whatever state we are in
-    let (stall_free, responsive) = {
+    let (stall_free, responsive, fast) = {
         let k = kernel.borrow();
         let accepted = k.written.len() - app.base;
         let pending_bytes = (app.expected.len().saturating_sub(accepted) + k.out_buf.len() + 256) as u64;
         let eff_chunk = k.drain_chunk.min(k.out_cap).max(1) as u64;
         let per_byte = (k.drain_latency + 40 * US) / eff_chunk + 1;
         let needed = pending_bytes * per_byte + k.reply_latency + k.drain_latency;
-        (k.now >= k.stalled_until && !k.hung, k.person.da1 && needed < SEC / 4)
+        // responsive: the terminal answers and reads; fast: it drains what is pending well
+        // within the second that dispose is prepared to wait
+        (k.now >= k.stalled_until && !k.hung, true, needed < SEC / 4)
     };
     let drop_clean_queue = app.term.as_ref().map(|t| t.frames_pending() == 0).unwrap_or(true);
     let term = app.term.take().unwrap();
@@ -2113,7 +2115,12 @@ fn session(ctx: &Ctx, kernel: &K) -> WorldResult {
                 return Err(violation(
                     "C17",
                     "C17.closing-sequence",
-                    if pending_quit { "closing-sequence-lost-with-pending-termination-signal" } else { "closing-sequence-not-delivered" },
+                    match (pending_quit, fast) {
+                        (true, true) => "closing-sequence-lost-with-pending-termination-signal",
+                        (true, false) => "closing-sequence-lost-with-pending-termination-signal+slow-terminal",
+                        (false, true) => "closing-sequence-not-delivered",
+                        (false, false) => "closing-sequence-not-delivered+slow-terminal",
+                    },
                     format!(
                         "tty healthy and peer responsive, but after drop the closing sequence was not delivered (tail_ok={tail_ok}, modes={:?}, hid_cursor={hid_cursor}, unconsumed termination signals={}); tail of tty output: {:?}; expected closing sequence: {:?}",
                         k.modes,
@@ -2168,7 +2175,15 @@ fn session(ctx: &Ctx, kernel: &K) -> WorldResult {
     // completely: a torn frame at release is a torn frame
     let drained = healthy && !k.faults.tee_full && responsive && stall_free && !k.trouble_in_dispose && k.quits_in_dispose <= 3 && !app.blocked && !k.eio && !k.hup;
     drop(k);
-    history.finish(drained, &|pos| expected[pos as usize])
+    match history.finish(drained, &|pos| expected[pos as usize]) {
+        Err(strict) if drained && !fast => {
+            // a terminal that is alive but needs longer than dispose waits: if the stream is
+            // right as far as it goes, what is wrong is only that the release cut it short
+            history.finish(false, &|pos| expected[pos as usize])?;
+            Err(Violation::new("C16", "C16.release", "output-cut-short-at-release+slow-terminal", strict.detail))
+        }
+        other => other,
+    }
 }
 
 /// the library's own size query (written when SIGWINCH arrives in escape-size mode) removed
